@@ -165,21 +165,23 @@ def run(rep, tier, seed, replay):
     if replay:
         cases = [json.load(open(replay))["case"]]
     else:
-        def cfg(name, a, b, c):
+        def cfg(name, a, b, c, d="TRUE", e="TRUE"):
             p = os.path.join(vlib.SPEC, "gen_%s.cfg" % name)
-            open(p, "w").write("SPECIFICATION Spec\nCONSTANTS\n  BudgetFromRunStart = %s\n  DeadlineWhileAsleep = %s\n  EmptyBodyCounts = %s\n  Max = 12\n  Slack = 2\n  Cap = 3\n"
-                               "INVARIANTS InvRunEndsInTime InvAbortReported InvLaterRuns InvWhileCapped\n" % (a, b, c))
+            open(p, "w").write("SPECIFICATION Spec\nCONSTANTS\n  BudgetFromRunStart = %s\n  DeadlineWhileAsleep = %s\n  EmptyBodyCounts = %s\n  EvalIsOwnExecution = %s\n  RefusedStartKeepsBudget = %s\n  Max = 12\n  Slack = 2\n  Cap = 3\n"
+                               "INVARIANTS InvRunEndsInTime InvAbortReported InvLaterRuns InvWhileCapped InvRunningInTime\n" % (a, b, c, d, e))
             return os.path.basename(p)
         r = vlib.tlc("Limits_MC", cfg("lim_ideal", "TRUE", "TRUE", "TRUE"), workers=vlib.NCPU, timeout_s=900)
         if not r.ok:
             raise vlib.MachineryError("Limits design check failed: %s %s" % (r.violated, (r.error or "")[:400]))
-        rep.add_tlc(r, "Limits_MC ideal")
-        for nm, a, inv in (("BudgetFromConstruction", ("FALSE", "TRUE", "TRUE"), "InvLaterRuns"), ("NoDeadlineWhileAsleep", ("TRUE", "FALSE", "TRUE"), "InvRunEndsInTime"),
-                           ("EmptyBodyNotCounted", ("TRUE", "TRUE", "FALSE"), "InvWhileCapped")):
+        rep.add_tlc(r, "Limits_MC ideal (runs, evaluations between runs, refused start requests)")
+        for nm, a, invs in (("BudgetFromConstruction", ("FALSE", "TRUE", "TRUE"), ("InvLaterRuns",)), ("NoDeadlineWhileAsleep", ("TRUE", "FALSE", "TRUE"), ("InvRunEndsInTime", "InvRunningInTime")),
+                            ("EmptyBodyNotCounted", ("TRUE", "TRUE", "FALSE"), ("InvWhileCapped",)),
+                            ("EvalFindsStaleExitRequest", ("TRUE", "TRUE", "TRUE", "FALSE", "TRUE"), ("InvRunEndsInTime", "InvLaterRuns")),
+                            ("RefusedStartRenewsBudget", ("TRUE", "TRUE", "TRUE", "TRUE", "FALSE"), ("InvRunningInTime", "InvRunEndsInTime"))):
             r2 = vlib.tlc("Limits_MC", cfg("lim_dev", *a), workers=4, timeout_s=600)
-            if r2.violated != inv:
-                raise vlib.MachineryError("vacuity self-test: deviation %s should violate %s, got %s" % (nm, inv, r2.violated))
-            rep.design_runs.append({"what": "deviation %s violates %s (non-vacuity)" % (nm, inv), "generated": r2.generated, "distinct": r2.distinct})
+            if r2.violated not in invs:
+                raise vlib.MachineryError("vacuity self-test: deviation %s should violate %s, got %s" % (nm, invs, r2.violated))
+            rep.design_runs.append({"what": "deviation %s violates %s (non-vacuity)" % (nm, r2.violated), "generated": r2.generated, "distinct": r2.distinct})
         cases = make_cases(rng, tier) + loop_cases(tier)
     rep.evaluations = len(cases)
     rep.rule = ("every non-terminating program kind (loops of every kind, recursion, mutually spawning scripts, sleepers, waitUntil) x run history "
